@@ -324,7 +324,8 @@ def finish(mod, acc, tier, seed, wall, nshards):
     # vacuity: every expected outcome class must have been seen
     missing = [c for c in getattr(mod, 'EXPECTED_CLASSES', ()) if acc.classes.get(c, 0) == 0]
     if hasattr(mod, 'expected_classes'):
-        missing = [c for c in mod.expected_classes(tier) if acc.classes.get(c, 0) == 0]
+        # 'a|b' = either of the alternatives
+        missing = [c for c in mod.expected_classes(tier) if not any(acc.classes.get(x, 0) for x in str(c).split('|'))]
     if missing:
         sys.stderr.write('VACUOUS property=%s: expected outcome classes never seen: %s\n'
                          % (prop, missing))
